@@ -28,6 +28,9 @@ type Fragment struct {
 	Shard       int              `json:"shard"`
 	Evaluations int              `json:"evaluations"`
 	Nontrivial  []string         `json:"nontrivial"` // distinct signature hashes of non-trivial cases
+	// NontrivialEnum counts non-trivial cases of complete enumerations, which are distinct by construction
+	// (each value of the enumerated domain is visited once; shards partition the domain).
+	NontrivialEnum int64 `json:"nontrivial_enum"`
 	Classes     map[string]int64 `json:"classes"`
 	Samples     []any            `json:"samples"`
 	Violations  []Violation      `json:"violations"`
@@ -88,6 +91,23 @@ func Record(c *Case) {
 				frag.Samples = append(frag.Samples, c.Sample)
 			}
 		}
+	}
+}
+
+// CountEnum adds cases of an enumeration (distinct by construction).
+func CountEnum(evaluations, nontrivial int64) {
+	mu.Lock()
+	defer mu.Unlock()
+	frag.Evaluations += int(evaluations)
+	frag.NontrivialEnum += nontrivial
+}
+
+// AddSample appends a sample if there is room.
+func AddSample(s any) {
+	mu.Lock()
+	defer mu.Unlock()
+	if len(frag.Samples) < MaxSamples {
+		frag.Samples = append(frag.Samples, s)
 	}
 }
 
